@@ -15,7 +15,7 @@ from .common import conclude, jline, junline
 from .. import core
 
 THEOREM_FILES = ["Properties/C20.lean"]
-KEYS = ["exit", "left"]
+KEYS = ["left"]
 KINDS = {"trace", "F18", "F28"}
 
 
@@ -83,7 +83,7 @@ def conc_requests(chk):
         esc = [["valid", "file", "json", "ej", K()], ["valid", "stdin", "json", "eb", K()]]
         for name, specs in (("same", same), ("different", diff), ("mixed-failing", mixed), ("own-reports", own),
                             ("escaping-names", esc)):
-            for j in range(1 if not thorough else 3):
+            for j in range(1 if not thorough else 2):
                 reqs.append({"op": "cli_conc", "n": n, "specs": specs, "jitter": rng.randrange(1, 10**6), "scenario": name})
     return reqs
 
@@ -95,10 +95,12 @@ def run(chk):
     lines = cases(chk)
     reqs = conc_requests(chk)
     # solitary stream and concurrent stream are sent to the implementation together (one pool of workers)
-    conc_lines = [jline(r) for r in reqs]
+    nat_reqs = [{"op": "cli_natural", "k": chk.rng.randrange(0, 64), "fmt": f} for f in ("json", "csv")]
+    conc_lines = [jline(r) for r in nat_reqs] + [jline(r) for r in reqs]
     model = core.run_driver(lines)
     real_all = cc.run_impl_parallel(chk, conc_lines + lines)
     conc_out, real = real_all[:len(conc_lines)], real_all[len(conc_lines):]
+    nat_out, conc_out = conc_out[:len(nat_reqs)], conc_out[len(nat_reqs):]
     bad = cc.crashed(lines, real)
     if bad:
         raise core.HarnessFault(f"cli worker failed on {bad[0][0]}: {bad[0][1]}")
@@ -113,16 +115,29 @@ def run(chk):
     cc.attribute(chk, dis, KEYS, ("F18", "F28"))
     found = cc.collect_violations(lines, real, KINDS)
 
-    # ---- concurrent runs: model (solitary answer per process, by `noninterference`) vs observation
-    spec_lines, owners = [], []
-    for qi, rq in enumerate(reqs):
-        for s in rq["specs"]:
-            spec_lines.append(cc.line(s[0], s[1], s[2], ureports=s[3], k=s[4]))
-            owners.append(qi)
-    spec_model = core.run_driver(spec_lines)
-    per_req = {}
-    for qi, m in zip(owners, spec_model):
-        per_req.setdefault(qi, []).append(m)
+    # ---- faults that occur without injection (non-UTF-8 project file): model = the corresponding fault point
+    nat_model = core.run_driver([cc.line("valid", "file", "json", fault="copyRead"),
+                                 cc.line("valid", "stdin", "json", fault="stdinWrite")])
+    ndis = []
+    for rq, ans in zip(nat_reqs, nat_out):
+        r = junline(ans)
+        if "_raw" in r:
+            raise core.HarnessFault(f"cli_natural worker failed: {ans[:400]}")
+        for channel, m in zip(("file", "stdin"), nat_model):
+            f = cc.fields(m)
+            want = f"exit {f['exit']} left {f['left']}"
+            if r[channel]["line"] != want:
+                ndis.append({"stream": "cli-natural", "input": jline(rq), "channel": channel, "model": want, "impl": r[channel]["line"]})
+            if not r[channel]["line"].endswith("left -"):
+                found.append(("F28: a project file that is not valid UTF-8 leaves " + str(r[channel]["new"]) + " behind",
+                              {"stream": "cli-natural", "input": jline(rq), "impl": r, "finding": "F28", "kind": "F28"}))
+            if r[channel]["stdout_bytes"]:
+                found.append(("non-UTF-8 input: bytes on stdout although the run failed", {"stream": "cli-natural", "input": jline(rq), "impl": r, "finding": None, "kind": "stdout"}))
+    chk.cov["streams"]["cli-natural"] = {"cases": 2 * len(nat_reqs), "disagreements": len(ndis)}
+    chk.cov["evaluations"] += 2 * len(nat_reqs)
+    # ---- concurrent runs.  Model: by `noninterference`/`interleaved_no_trace` every process equals its solitary
+    # run and nothing is left, whatever the interleaving; the model's answer for an experiment is therefore
+    # "same-as-solitary left -".  Implementation: every process compared byte for byte with the real solitary run.
     procs = 0
     cdis = []
     conc_hist = {}
@@ -131,13 +146,10 @@ def run(chk):
         if "_raw" in r:
             raise core.HarnessFault(f"cli_conc worker failed: {ans[:400]}")
         procs += r["n"]
-        ms = per_req[qi]
-        for i, ob in enumerate(r["obs"]):
-            f = cc.fields(ms[i % len(ms)])
-            want = f"exit {f['exit']} out {f['out']} id {f['id']}"
-            if ob != want:
-                cdis.append({"stream": "cli-conc", "input": jline(rq), "proc": i, "model": want, "impl": ob})
-        if f"left {','.join(r['left']) or '-'}" != "left -":
+        if r["nmismatch"]:
+            cdis.append({"stream": "cli-conc", "input": jline(rq), "model": "same-as-solitary",
+                         "impl": f"{r['nmismatch']} of {r['n']} differ", "first": r["mismatch"][:1]})
+        if r["left"]:
             cdis.append({"stream": "cli-conc", "input": jline(rq), "model": "left -", "impl": "left " + ",".join(r["left"])})
         key = f"{rq['scenario']} N={rq['n']}"
         conc_hist[key] = {"mismatch": r["nmismatch"], "left": r["left"]}
@@ -158,12 +170,12 @@ def run(chk):
                           {"stream": "cli-conc", "input": jline(rq), "impl": r, "finding": fid, "kind": fid or "trace"}))
     chk.cov["streams"]["cli-conc"] = {"cases": len(reqs), "processes": procs, "disagreements": len(cdis)}
     chk.cov["evaluations"] += procs
-    chk.cov["disagreements"] += len(dis) + len(cdis)
+    chk.cov["disagreements"] += len(dis) + len(cdis) + len(ndis)
     chk.cov["samples"].append({"stream": "cli-conc", "input": reqs[1], "impl": junline(conc_out[1])})
     # F17 is a C19 finding; here it only explains why concurrent stdout differs in the own-reports scenario
     c20_found = [(w, p) for (w, p) in found if p.get("finding") != "F17"]
     f17_only = [(w, p) for (w, p) in found if p.get("finding") == "F17"]
-    cdis_c20 = [d for d in cdis if not (json.loads(d["input"][2:])["scenario"] == "own-reports" and "proc" in d)]
+    cdis_c20 = [d for d in cdis if not (json.loads(d["input"][2:])["scenario"] == "own-reports" and d["model"] == "same-as-solitary")]
     if f17_only:
         chk.cov["not_counted_here"] = {"F17 (C19) seen in the own-reports concurrent scenario": len(f17_only)}
     nontrivial = set()
@@ -189,7 +201,7 @@ def run(chk):
         "cleanup calls (unlink, rmtree) are assumed not to fail; at most one injected fault per run",
         "-o FILE: the requested file is the only thing that may remain",
     ]
-    return conclude(chk, dis + cdis_c20, lambda: c20_found)
+    return conclude(chk, dis + ndis + cdis_c20, lambda: c20_found)
 
 
 def replay(chk, payload):
